@@ -9,7 +9,7 @@ real stream did.
 import itertools, re
 from core.wire import atom, line, parse_reply
 from props import c11 as base
-from props.c11 import run_impl, model_result, impl_view, wire_op, norm, buflen, READ_KINDS  # noqa: F401
+from props.c11 import model_result, impl_view, norm, buflen, READ_KINDS  # noqa: F401
 
 ID = "C13"
 LEAN_TARGETS = ["TornadoModel.C13.Props"]
@@ -20,6 +20,7 @@ THEOREMS = [_P + n for n in [
     "satisfiable_read_gets_data", "pending_read_at_close",
     "all_settled_once", "none_pending_after_close", "settled_exactly_once_at_close",
     "tryInline_gets_buffered", "later_read_gets_buffered",
+    "read_error_in_loop_gets_data", "eof_in_loop_gets_data", "all_settled_once_arrivals",
 ]]
 TRUSTED = base.TRUSTED + [
     "asyncio.Future set-once semantics and FIFO call_soon ordering (abstraction: a settle event per future id)",
@@ -28,20 +29,31 @@ TRUSTED = base.TRUSTED + [
 ASSUMPTIONS = base.ASSUMPTIONS + [
     "write futures: sizes only, the transport either takes everything, blocks, or raises (partial sends belong to C12)",
     "at most one connect() per stream, issued first (a second connect() overwrites _connect_future: API misuse, excluded)",
+    "op `arrive` (bytes reach the transport, the handler does not run yet) stands for an IOLoop that reports readiness once "
+    "per iteration; an error / EOF always comes with an event or is found by the next read call",
 ]
 RULE = ("op sequences <= 5 over a 12-op alphabet (complete for <= 2 in quick, <= 3 in thorough) with each of 7 close causes "
         "inserted at every position, plus random sequences with writes/connect, plus the after-close grid (4 ways bytes get "
         "buffered unconsumed x 7 pending reads x 8 causes x 9 sequences of later reads: complete in thorough, 30 % sample in "
-        "quick); non-trivial = the stream closed while at "
+        "quick), plus the loop-close grid (read_chunk_size 1..5/default x 0..9 filler bytes x 21 pending reads x ECONNRESET / "
+        "EIO / EOF met INSIDE one pass of the read loop x 5 ways bytes and cause meet the read [handler pass, handler pass on "
+        "a non-empty buffer, two transport segments, inline in the read call, inline with a close callback], plus the local / "
+        "write causes: 20412 cases, complete in thorough, 6 % sample in quick) and random members of that neighbourhood "
+        "(unreported arrivals `arrive`); non-trivial = the stream closed while at "
         "least one future was pending")
 EXHAUSTIVE = {"quick": False, "thorough": False}
 CLAUSES = {
     "every pending read, write and connect future is completed exactly once":
-        "close_settles_all + close_spec (each pending id appears once in the events of close) + all_settled_once (no id "
+        "close_settles_all + close_spec (each pending id appears once in the events of close) + all_settled_once / "
+        "all_settled_once_arrivals (no id "
         "settled twice over ANY run, all op sequences) + none_pending_after_close + settled_exactly_once_at_close (a future "
         "pending at a close occurs exactly once in the settle log of the whole run, in that close step); the harness also "
         "counts done-callbacks per future",
-    "reads that buffered data can satisfy complete with that data": "satisfiable_read_gets_data + pending_read_at_close (vs Spec.expected)",
+    "reads that buffered data can satisfy complete with that data":
+        "satisfiable_read_gets_data + pending_read_at_close (vs Spec.expected, every cause) + read_error_in_loop_gets_data / "
+        "eof_in_loop_gets_data (the close made by _read_to_buffer inside the read loop: transport error k or EOF, read still "
+        "registered: completed with Spec.expected of the buffered bytes, else StreamClosedError(k)); oracle clause (2) on the "
+        "buffer snapshot taken at entry of close(), for every close cause",
     "everything else fails with StreamClosedError carrying the real error": "others_get_closed_error + pending_read_at_close + close_error",
     "the close callback runs exactly once after that": "callback_once_after + close_again",
     "no later write or connect succeeds": "no_write_after_close + closed_stays_closed (tie only: connect after close is not part of BaseIOStream)",
@@ -52,6 +64,32 @@ CLAUSES = {
 }
 PARALLEL = False
 CASE_TIMEOUT = 120
+
+
+# ---- the op `arrive` (added after the missed seeded change C13-2) -----------------------------------------------------
+# `feed` / `eof` / `rerr` are FakeStream.feed*: the transport changes and the stream's handler runs at once.  A real
+# IOLoop reports readiness once per iteration, so the peer's last bytes and its RST / FIN are normally picked up by ONE
+# pass of `_read_to_buffer_loop`: `close()` is then called inside the loop while the read is still registered and the
+# bytes pulled since the last scan have not been looked at.  `["arrive", hex]` puts bytes into the transport without
+# running anything (Lean: `C13.XOp.arrive`); the next event or read call sees them together with what follows.
+class Runner(base.Runner):
+    def apply(self, op):
+        if op[0] == "arrive":
+            if op[1]:
+                self.s.incoming.append(bytes.fromhex(op[1]))
+            return "U"
+        return super().apply(op)
+
+
+def run_impl(case):
+    return Runner(case).run()
+
+
+def wire_op(op):
+    if op[0] == "arrive":
+        return [atom("arrive"), bytes.fromhex(op[1])]
+    return base.wire_op(op)
+
 
 ALPHABET = [
     ["feed", b"a\n".hex()], ["feed", b"12x\r\n\r\nb".hex()],
@@ -117,8 +155,123 @@ def after_close_grid(rng=None, sample=None):
                           [list(o) for o in later]
                     yield {"cfg": [None, None], "ops": ops, "enum": "after:" + cname}
 
+# ---- a close INSIDE the read loop (added after the missed seeded change C13-2) ------------------------------------------
+# `close()` is the only place where a read that became satisfiable during the CURRENT pass of `_read_to_buffer_loop` is
+# resolved when that pass ends in a close: the loop rescans the buffer only after the first chunk and whenever the buffer
+# has doubled, so with a small read_chunk_size the bytes that complete a delimiter are usually pulled without a scan, and
+# the transport's EOF / ECONNRESET / OSError is hit before the next one.  Dimensions of the grid:
+#   read_chunk_size 1..5 and default  x  k = 0..9 filler bytes in front of the record (moves every delimiter across the
+#   chunk / rescan boundaries)  x  the pending read (each delimiter of the record, both regexes, max_bytes none / large /
+#   exactly the record / one short; read_bytes / read_into exact, one more, partial; read_until_close)  x  the cause
+#   (ECONNRESET, EIO, EOF inside the loop; the local / write causes after the pass, for completeness)  x  how the bytes
+#   and the cause meet the read:
+#     handler   read pending, bytes arrive, then the cause: one `_handle_read` pass pulls everything and hits the cause
+#     handler+  the same after a first part was delivered (and scanned) on its own: the pass starts on a non-empty buffer
+#     segs      the bytes sit in the transport as two segments (a short read_from_fd in the middle of the pass)
+#     inline    bytes and cause are there before the read is issued: the pass runs inside the read call
+#     inline-cb the same on a stream with a close callback (it listens while idle: the cause event pulls one chunk first)
+LC_TAIL = b"1x\r\n\r\nb"
+LC_CHUNKS = [1, 2, 3, 4, 5, None]
+LC_CAUSES = {"reset": [["rerr", "reset"]], "oserr": [["rerr", "oserr"]], "eof": [["eof"]]}
+LC_MODES = ["handler", "handler+", "segs", "inline", "inline-cb"]
+LC_LATER = [["rb", 2, False], ["ruc"]]
+
+
+def lc_reads(k):
+    n = k + len(LC_TAIL)
+    nl = k + 4                      # end of the first "\n"
+    return [
+        ["ru", b"\n".hex(), None], ["ru", b"\n".hex(), 64], ["ru", b"\n".hex(), nl], ["ru", b"\n".hex(), nl - 1],
+        ["ru", b"x".hex(), None], ["ru", b"\r\n\r\n".hex(), None], ["ru", b"b".hex(), None], ["ru", b"b".hex(), n],
+        ["ru", b"zz".hex(), None],
+        ["rr", 0, None], ["rr", 0, 64], ["rr", 1, None], ["rr", 1, k + 2], ["rr", 1, k + 1],
+        ["rb", n, False], ["rb", n + 1, False], ["rb", n + 1, True], ["ri", n, False], ["ri", n + 1, False],
+        ["ri", n + 1, True], ["ruc"],
+    ]
+
+
+def lc_case(chunk, k, read, cause_ops, mode, cname=""):
+    data = b"a" * k + LC_TAIL
+    cut = max(1, min(len(data) - 1, chunk or 3))
+    if mode == "handler":
+        ops = [list(read), ["arrive", data.hex()]]
+    elif mode == "handler+":
+        ops = [["setcb"], list(read), ["feed", data[:cut].hex()], ["arrive", data[cut:].hex()]]
+    elif mode == "segs":
+        ops = [list(read), ["arrive", data[:k + 3].hex()], ["arrive", data[k + 3:].hex()]]
+    elif mode == "inline":
+        return {"cfg": [chunk, None], "enum": "loop:" + cname,
+                "ops": [["arrive", data.hex()]] + [list(o) for o in cause_ops] + [list(read)] + [list(o) for o in LC_LATER]}
+    else:
+        return {"cfg": [chunk, None], "enum": "loop:" + cname,
+                "ops": [["setcb"], ["arrive", data.hex()]] + [list(o) for o in cause_ops] + [list(read)] +
+                       [list(o) for o in LC_LATER]}
+    return {"cfg": [chunk, None], "ops": ops + [list(o) for o in cause_ops] + [list(o) for o in LC_LATER], "enum": "loop:" + cname}
+
+
+def loop_close_grid(rng=None, sample=None):
+    causes = dict(LC_CAUSES)
+    for chunk in LC_CHUNKS:
+        for k in range(10):
+            for read in lc_reads(k):
+                for cname, cops in causes.items():
+                    for mode in LC_MODES:
+                        if sample is not None and rng.random() > sample:
+                            continue
+                        yield lc_case(chunk, k, read, cops, mode, cname)
+    # the causes that cannot occur inside the loop (local close, close(exc), failing send): same set-ups, thinner
+    for chunk in (1, 4):
+        for k in (0, 3, 6):
+            for read in lc_reads(k):
+                for cname in ("close", "close-exc", "send-fail", "send-fail2"):
+                    for mode in ("handler", "handler+", "inline"):
+                        if sample is not None and rng.random() > sample:
+                            continue
+                        yield lc_case(chunk, k, read, CAUSES[cname], mode, cname)
+
+
+def gen_loop_close(rng):
+    """random member of the neighbourhood: random bytes (rich in delimiters) in random transport segments, some delivered
+    with an event and some silently, any read kind, small chunk sizes / buffer limits, a cause from the transport"""
+    chunk = rng.choice([1, 1, 2, 3, 4, 5, 7, 8, None])
+    maxbuf = rng.choice([None, None, None, None, 9, 16, 33])
+    n = rng.choice([1, 2, 3, 5, 8, 13, 20, 40])
+    data = base._rand_bytes(rng, n)
+    segs = base._segments(rng, data, max(1, min(chunk or 8, 8)))
+    hint = max(1, n // 2)
+    ops = []
+    if rng.random() < 0.4:
+        ops.append(["setcb"])
+    early = rng.random() < 0.65
+    if early:
+        ops.append(base._rand_read(rng, hint))
+    for sg in segs:
+        ops.append(["arrive" if rng.random() < 0.75 else "feed", sg.hex()])
+        if rng.random() < 0.1:
+            ops.append(base._rand_read(rng, hint))
+    ops += rng.choice([[["rerr", "reset"]], [["rerr", "reset"]], [["rerr", "oserr"]], [["eof"]], [["close", True]],
+                       [["wmode", "epipe"], ["write", 1]], [["feed", b"\n".hex()]]])
+    if not early or rng.random() < 0.5:
+        ops.append(base._rand_read(rng, hint))
+    for _ in range(rng.randint(0, 2)):
+        ops.append(base._rand_read(rng, hint))
+    return {"cfg": [chunk, maxbuf], "ops": ops, "enum": "loop:random"}
+
+
+def _with_arrivals(rng, c):
+    """a random op sequence in which some arrivals are not reported at once"""
+    return {**c, "ops": [["arrive", o[1]] if o[0] == "feed" and rng.random() < 0.4 else o for o in c["ops"]]}
+
 
 def gen_cases(rng, tier):
+    if tier == "quick":
+        yield from loop_close_grid(rng, 0.06)
+    elif tier == "thorough":
+        yield from loop_close_grid()
+    else:
+        yield from loop_close_grid(rng, 0.06)
+    for _ in range({"quick": 500, "thorough": 15000, "search": 1000}[tier]):
+        yield gen_loop_close(rng)
     if tier == "quick":
         yield from after_close_grid(rng, 0.3)
     elif tier == "thorough":
@@ -138,6 +291,8 @@ def gen_cases(rng, tier):
         n = 2000
     for _ in range(n):
         c = base.gen_ops(rng, writes=0.7, closes=1.0)
+        if rng.random() < 0.2:
+            c = _with_arrivals(rng, c)
         if rng.random() < 0.25 and not any(o[0] == "connect" for o in c["ops"]):   # connect first, completing or failing somewhere
             ops = c["ops"]
             ops = [["connect"]] + ([["cerr", "refused"]] if rng.random() < 0.4 else []) + ops
@@ -387,4 +542,10 @@ def signature(case, impl, why):
     return "other/" + re.sub(r"[^a-zA-Z]+", "-", w)[:40]
 
 
-shrink = base.shrink
+def shrink(case):
+    yield from base.shrink(case)
+    ops = case["ops"]
+    for i, o in enumerate(ops):
+        if o[0] == "arrive" and len(o[1]) > 2:
+            yield {**case, "ops": ops[:i] + [["arrive", o[1][:-2]]] + ops[i + 1:]}
+            yield {**case, "ops": ops[:i] + [["arrive", o[1][2:]]] + ops[i + 1:]}
